@@ -3,13 +3,17 @@
    Proved (all configurations, all write histories): index.m3u8 and every media playlist always
    resolve; a segment evicted from the window and, in Low-Latency, each of its parts stop resolving
    at that very rotation; an unregistered key never resolves; a published segment record (hence the
-   bytes its handler serves) never changes while it exists. Established by the correspondence run
-   (trace line 5 = the complete key set of the real table after every rotation) and the oracle only:
-   that every listed URI resolves with status 200 and the right content type, byte equality of a
-   segment with the concatenation of its parts (storage: C17), fragment sequence numbers. *)
+   bytes its handler serves) never changes while it exists; every listed segment URI, every part URI of
+   a listed or open segment and the init URI of a stream that has an init resolve to their handlers
+   (c05_listed_uris_resolve, through the window and part-number invariants: an eviction unregisters only
+   keys of the evicted segment). Established by the correspondence run (trace line 5 = the complete
+   key set of the real table after every rotation) and the oracle only: status 200 and content type,
+   byte equality of a segment with the concatenation of its parts (storage: C17), fragment sequence
+   numbers, slow readers. *)
 From Coq Require Import List ZArith Bool.
 From GoHls Require Import Model.Mux Proofs.MuxStream Proofs.MuxLift Proofs.MuxWindow Proofs.MuxHistory
-  Proofs.MuxPlaylist Proofs.MuxTimes Proofs.MuxPaths.
+  Proofs.MuxPlaylist Proofs.MuxTimes Proofs.MuxPaths
+  Proofs.MuxPartIds Proofs.MuxResolve.
 Import ListNotations.
 Local Open Scope Z_scope.
 
@@ -54,3 +58,15 @@ Theorem c05_segment_is_its_parts : forall c ops m si s,
   reach c ops m -> nth_error (m_streams m) si = Some s -> TI (c_variant (norm_cfg c)) s.
 Proof. exact reach_TI. Qed.
 Print Assumptions c05_segment_is_its_parts.
+
+(* every listed URI resolves: in every reachable state the URI of every listed non-gap segment maps to a
+   segment handler, the URI of every part of a listed or open segment (Low-Latency) to a part handler, and
+   the init URI of a stream that has an init segment to its handler *)
+Theorem c05_listed_uris_resolve : forall c m0 ops si s,
+  start c = Ok m0 -> nth_error (m_streams (mux_run m0 ops)) si = Some s ->
+  let m := mux_run m0 ops in
+  (forall g, In g (st_segments s) -> sg_gap g = false -> lookup (m_paths m) (KSeg si (sg_id g)) = Some HStatic)
+  /\ (c_variant (m_cfg m) = LL -> forall p, In p (listed_all s) -> lookup (m_paths m) (KPart si (p_id p)) = Some HPart)
+  /\ (st_init s <> None -> lookup (m_paths m) (KInit si) = Some HStatic).
+Proof. exact listed_uris_resolve. Qed.
+Print Assumptions c05_listed_uris_resolve.
